@@ -93,7 +93,13 @@ class CreateCheck:
         self.id = pid
         self.assumptions = [
             "real scale R: file sizes from the boundary alphabet around block "
-            "(16 KiB) and piece multiples, trees of <= 5 files, depth <= 3",
+            "(16 KiB) and piece multiples, trees of <= 5 files, depth <= 3; "
+            "shapes include a child named like the root and payload files "
+            "named like the output metafile",
+            "long single files in S: every size up to 2200 (thorough 4200) "
+            "bytes at B=2, i.e. up to 1100 (2100) blocks / pieces, so counts "
+            "pass 257, 513, 1025, 2049; thorough adds real files of 257, 258, "
+            "513 and 1025 pieces",
             "scaled model S = the same code with hasher.BLOCK_SIZE rebound to "
             "2 (thorough also 4): every byte size up to 2P+1 (thorough 4P+1); "
             "transfers to B=16384 by the parametricity argument + conformance "
@@ -116,15 +122,16 @@ class CreateCheck:
         quick = tier == "quick"
         # R, trees
         if quick:
-            shapes3 = ["D2", "D2n", "D3", "D3s", "D3o", "D3u"]
+            shapes3 = ["D2", "D2n", "D3", "D3s", "D3o", "D3u", "D3n", "D3t"]
             shapes4 = ["D4"]
             Ps = [16384, 32768]
         else:
-            shapes3 = ["D2", "D2n", "D3", "D3s", "D3o", "D3u", "D3x"]
+            shapes3 = ["D2", "D2n", "D3", "D3s", "D3o", "D3u", "D3x", "D3n",
+                       "D3t"]
             shapes4 = ["D4", "D4n", "D5"]
             Ps = [16384, 32768, 65536]
         if pid in ("C02", "C03", "C10") and quick:
-            shapes3 = ["D2n", "D3", "D3o", "D3u"]
+            shapes3 = ["D2n", "D3", "D3o", "D3u", "D3n", "D3t"]
         for P in Ps:
             for sh in shapes3 + shapes4:
                 n = world.nfiles(sh)
@@ -157,6 +164,24 @@ class CreateCheck:
                                "P": P, "shape": sh,
                                "sizes": sizes[i:i + chunk], "seed": seed,
                                "listing": "native"})
+        # S, long single files: every size up to ~1100 blocks, so that block
+        # and piece counts pass 257, 513, 1025 (padding logic above 2^8)
+        for P in ([2, 1024] if quick else [2, 4, 256, 1024]):
+            top = 2200 if quick else 4200
+            sizes = list(range(0, top + 1))
+            for sh in ("S1",) if quick else ("S1", "D1"):
+                for i in range(0, len(sizes), 100):
+                    gs.append({"kind": "dense", "scale": "S", "B": 2, "P": P,
+                               "shape": sh, "sizes": sizes[i:i + 100],
+                               "seed": seed, "listing": "native",
+                               "long": True})
+        if not quick:
+            # R, single files with 257 / 258 / 513 / 1025 pieces
+            for P in (16384,):
+                for sz in (257 * P, 257 * P + 1, 513 * P - 1, 1025 * P):
+                    gs.append({"kind": "dense", "scale": "R", "B": REAL_B,
+                               "P": P, "shape": "S1", "sizes": [sz],
+                               "seed": seed, "listing": "native"})
         # auto piece length + CLI route (R)
         for sh in ("S1", "D2n", "D3"):
             alpha = e1.r_alphabet(16384, "quick", 3)
@@ -207,10 +232,14 @@ class CreateCheck:
                 raws = {}
                 for creator in ("Assembler2", "TorrentFileV2", "Assembler3",
                                 "TorrentFileHybrid"):
+                    of = os.path.join(parent, creator + ".t")
+                    if w["shape"] == "D3t":
+                        os.mkdir(os.path.join(parent, "out_" + creator))
+                        of = os.path.join(parent, "out_" + creator,
+                                          "o.torrent")
                     try:
-                        raws[creator] = canon_info(tf.create(
-                            creator, path, os.path.join(parent, creator + ".t"),
-                            P))
+                        raws[creator] = canon_info(tf.create(creator, path, of,
+                                                             P))
                     except Exception as e:  # noqa
                         raws[creator] = ("raised", type(e).__name__)
                     trans += 1
@@ -236,6 +265,10 @@ class CreateCheck:
                 return out, trans
             for label, creator, kw, oracle in CONFIG[pid]:
                 of = os.path.join(parent, label + ".torrent")
+                if w["shape"] == "D3t":
+                    # the output metafile carries the name of payload files
+                    os.mkdir(os.path.join(parent, "out_" + label))
+                    of = os.path.join(parent, "out_" + label, "o.torrent")
                 try:
                     raw = tf.create(creator, path, of, P, **kw)
                     out[label] = judge(oracle, raw, tree, P, B, name)
@@ -300,14 +333,15 @@ class CreateCheck:
                 continue
             # S: conformance replay at R for all <=2-file worlds and for every
             # world on which S and the reference disagree
-            small = world.nfiles(g["shape"]) <= 2
+            small = world.nfiles(g["shape"]) <= 2 and not g.get("long")
             key = repr(vec)
             if vec and confirmed.get(key, 0) >= 3:
                 res.extra["S_disagreements_not_replayed_over_cap"] += 1
                 continue
             if vec or small:
                 rw = e1.world_to_real(w)
-                if max(rw["sizes"]) > (1 << 21):
+                if max(rw["sizes"]) > (1 << 25):
+                    res.extra["S_worlds_too_large_to_replay_at_R"] += 1
                     continue
                 robs, rtrans = self.observe(rw, seed)
                 res.transitions += rtrans
